@@ -204,7 +204,7 @@ pub fn kinds() -> Vec<Kind> {
     let cdef = |name: &'static str, lhs: &'static str| Target {
         name,
         setup: format!("{}\\countdef{lhs}=9 ", active_setup(lhs)),
-        probe: format!("\\the{lhs} "),
+        probe: format!("\\the{}", exec_probe(lhs)),
         initial: "99".into(),
         forms: vec![abs_form("countdef", move |i| format!("\\countdef{lhs}={} ", 10 + i), |i| (100 + i).to_string())],
     };
